@@ -12,6 +12,8 @@ mod c12;
 mod c13;
 mod c14;
 mod c15;
+mod c16;
+mod c17;
 mod common;
 mod selftest;
 
@@ -89,6 +91,8 @@ fn main() {
             }
         }
         "C15" => c15::run(&tier),
+        "C16" => c16::run(&tier),
+        "C17" => c17::run(&tier),
         "C14" => {
             let ctr = std::sync::Arc::new(c14::Counters::default());
             let ck = c14::C14 { ctr: ctr.clone(), subsets: common::is_thorough(&tier) };
